@@ -36,6 +36,11 @@ pub struct CaseInput {
     pub marker: Vec<u8>,
     pub sentinel: bool,
     pub keep_open: bool,
+    /// two-phase input: write `bytes[..n]`, wait for the response the backend gives before the
+    /// request body is complete, then write the rest
+    pub wait_response_at: Option<usize>,
+    /// number of complete responses to wait for at that point
+    pub wait_responses: usize,
 }
 
 /// wire form of one request, line-structured so that operators can edit it
@@ -269,7 +274,7 @@ pub struct OpResult {
 }
 
 pub const FAMILIES: &[&str] = &[
-    "cl_te", "te_obf", "cl_value", "chunk", "line_ending", "bytes", "host", "start_line", "oversize", "misc_header", "trailer",
+    "cl_te", "te_obf", "cl_value", "chunk", "line_ending", "bytes", "host", "start_line", "oversize", "misc_header", "trailer", "early_response",
 ];
 
 fn res(name: impl Into<String>, marker: &[u8]) -> OpResult {
@@ -1028,10 +1033,82 @@ pub fn apply(family: &str, rng: &mut Rng, case: u64, i: usize, w: &mut Wire, int
 }
 
 /// build the input of case `case`
+/// A keep-alive request whose backend answers (complete response, keep-alive allowed) as soon as
+/// it has the head, while the client has only sent a part of the declared body. The rest of the
+/// body, sent after the response arrived, is shaped like a full request. Everything is valid
+/// HTTP/1.1: the client's script contains `n_before + 1` requests plus the sentinel.
+fn build_early_response(rng: &mut Rng, case: u64) -> CaseInput {
+    let n_before = rng.urange(0, 2);
+    let mut bytes = Vec::new();
+    let mut intended = Vec::new();
+    for i in 0..n_before {
+        let (w, it) = valid_request(rng, case, i, None);
+        bytes.extend_from_slice(&w.render());
+        intended.push(it);
+    }
+    let part_a = keystream(case.wrapping_mul(16) ^ 0xea71, 0, rng.urange(0, 40));
+    let smug = smuggled(case);
+    let method = *rng.pick(&["POST", "PUT", "PATCH"]);
+    let target = format!("/c{case}-early");
+    let chunked_framing = rng.bool();
+    let mut head = format!("{method} {target} HTTP/1.1\r\nHost: {HOST}\r\nX-Early-Answer: 1\r\n").into_bytes();
+    let (body, cut_in_body, op): (Vec<u8>, usize, &str) = if chunked_framing {
+        // one chunk holding part A then the request-shaped remainder; the pause is inside the chunk
+        let data = [part_a.clone(), smug.clone()].concat();
+        let size_line = format!("{:x}\r\n", data.len()).into_bytes();
+        let cut = size_line.len() + part_a.len();
+        (
+            [size_line, data, b"\r\n0\r\n\r\n".to_vec()].concat(),
+            cut,
+            "chunked",
+        )
+    } else {
+        let data = [part_a.clone(), smug.clone()].concat();
+        (data, part_a.len(), "content_length")
+    };
+    if chunked_framing {
+        head.extend_from_slice(b"Transfer-Encoding: chunked\r\n\r\n");
+    } else {
+        head.extend_from_slice(format!("Content-Length: {}\r\n\r\n", body.len()).as_bytes());
+    }
+    bytes.extend_from_slice(&head);
+    let wait_at = bytes.len() + cut_in_body;
+    bytes.extend_from_slice(&body);
+    intended.push(Intended { method: method.as_bytes().to_vec(), target: target.into_bytes(), host: HOST.as_bytes().to_vec(), body: [part_a, smug.clone()].concat(), sentinel: false });
+    let with_sentinel = rng.chance(2, 3);
+    if with_sentinel {
+        let (b, it) = sentinel(case);
+        bytes.extend_from_slice(&b);
+        intended.push(it);
+    }
+    let len = bytes.len();
+    CaseInput {
+        case,
+        family: "early_response",
+        op: op.to_string(),
+        pos: if n_before == 0 { 3 } else { 2 },
+        bytes,
+        cuts: vec![(wait_at, 0), (len, 0)],
+        seg_kind: "two_phase",
+        built_valid: true,
+        intended,
+        mutated_index: Some(n_before),
+        marker: smug,
+        sentinel: with_sentinel,
+        keep_open: rng.bool(),
+        wait_response_at: Some(wait_at),
+        wait_responses: n_before + 1,
+    }
+}
+
 pub fn build(seed: u64, case: u64) -> CaseInput {
     let mut rng = Rng::for_case(seed, 3, case);
+    let early_family = FAMILIES[(case % FAMILIES.len() as u64) as usize] == "early_response";
+    if early_family && !rng.chance(1, 8) {
+        return build_early_response(&mut rng, case);
+    }
     let n = rng.urange(1, 4);
-    let mutate = !rng.chance(1, 8);
+    let mutate = !rng.chance(1, 8) && !early_family;
     let family = if mutate { FAMILIES[(case % FAMILIES.len() as u64) as usize] } else { "valid" };
     let pos_req = if !mutate {
         usize::MAX
@@ -1097,6 +1174,8 @@ pub fn build(seed: u64, case: u64) -> CaseInput {
         marker,
         sentinel: with_sentinel,
         keep_open: rng.bool(),
+        wait_response_at: None,
+        wait_responses: 0,
     }
 }
 
